@@ -14,10 +14,19 @@
 (* WStamp (WriteAt: pre-read, modify, mark dirty), FlushPage (one pwrite    *)
 (* per dirty page, ascending), Close, Crash.                                *)
 (* Quirks: "NoFlock" (lock not taken), "D6" (failed Open keeps descriptor   *)
-(* and lock until a finalizer runs), "CloseFlushes".                        *)
+(* and lock until a finalizer runs), "CloseFlushes", "CreateNoLock".        *)
+(*                                                                         *)
+(* Creation is part of the model: Create is NOT atomic.  CreateFd makes the *)
+(* file visible (O_CREAT|O_EXCL) before the creator holds the lock; the     *)
+(* header it writes lives in the page cache until the creator's first Sync, *)
+(* so an Open that gets the lock before that Sync finds no valid header and *)
+(* must fail - and leave the file unlocked.  `dmg` names the way the file   *)
+(* on disk is unusable ("empty": created, not yet synced; the other kinds   *)
+(* are damage done / repaired from outside while nobody holds the file).    *)
 (***************************************************************************)
 EXTENDS Integers, FiniteSets, TLC
 CONSTANTS Writers, Readers, NPages, MaxSess, Threads, FQuirks
+Damages == {"method", "short", "count"}     \* invalid aggregation method / file one byte short / archive count 0
 Procs == Writers \cup Readers
 Pages == 0..(NPages - 1)
 Unread == -1
@@ -30,8 +39,12 @@ VARIABLES disk,     \* page -> generation stamped on it
           sess,     \* process -> sessions started
           seen,     \* reader -> thread -> set of page contents its fetch observed
           commits,  \* ghost: number of completed (synced) writer sessions
-          hdrOk     \* FALSE: the header on disk is unreadable/invalid (Open must fail)
-vars == <<disk, lock, pc, cache, dirty, val, sess, seen, commits, hdrOk>>
+          hdrOk,    \* FALSE: the header on disk is unreadable/invalid (Open must fail)
+          exists,   \* the path exists
+          mode,     \* process -> "open" | "create": how its current handle was obtained
+          dmg       \* "none" when hdrOk, else why the file is unusable: "absent" | "empty" | a member of Damages
+aux == <<exists, mode, dmg>>
+vars == <<disk, lock, pc, cache, dirty, val, sess, seen, commits, hdrOk, exists, mode, dmg>>
 
 Init == /\ disk = [pg \in Pages |-> 0]
         /\ lock = "free"
@@ -42,22 +55,36 @@ Init == /\ disk = [pg \in Pages |-> 0]
         /\ sess = [p \in Procs |-> 0]
         /\ seen = [p \in Procs |-> [t \in Threads |-> {}]]
         /\ commits = 0
-        /\ hdrOk \in BOOLEAN
+        /\ exists \in BOOLEAN
+        /\ mode = [p \in Procs |-> "open"]
+        /\ \/ exists /\ hdrOk = TRUE /\ dmg = "none"
+           \/ exists /\ hdrOk = FALSE /\ dmg \in Damages
+           \/ ~exists /\ hdrOk = FALSE /\ dmg = "absent"
 
-OpenFd(p) == /\ pc[p] = "idle" /\ sess[p] < MaxSess
+OpenFd(p) == /\ pc[p] = "idle" /\ sess[p] < MaxSess /\ exists
              /\ pc' = [pc EXCEPT ![p] = "locking"]
              /\ sess' = [sess EXCEPT ![p] = @ + 1]
              /\ seen' = [seen EXCEPT ![p] = [t \in Threads |-> {}]]
-             /\ UNCHANGED <<disk, lock, cache, dirty, val, commits, hdrOk>>
+             /\ mode' = [mode EXCEPT ![p] = "open"]
+             /\ UNCHANGED <<disk, lock, cache, dirty, val, commits, hdrOk, exists, dmg>>
 
+\* os.OpenFile(O_CREATE|O_EXCL): the (empty) file is there before its creator holds the lock
+CreateFd(p) == /\ p \in Writers /\ pc[p] = "idle" /\ sess[p] < MaxSess /\ ~exists
+               /\ exists' = TRUE /\ dmg' = "empty" /\ hdrOk' = FALSE
+               /\ pc' = [pc EXCEPT ![p] = "locking"]
+               /\ sess' = [sess EXCEPT ![p] = @ + 1]
+               /\ mode' = [mode EXCEPT ![p] = "create"]
+               /\ UNCHANGED <<disk, lock, cache, dirty, val, commits, seen>>
+
+NoLock(p) == "NoFlock" \in FQuirks \/ ("CreateNoLock" \in FQuirks /\ mode[p] = "create")
 Acquire(p) == /\ pc[p] = "locking"
-              /\ \/ lock = "free" \/ "NoFlock" \in FQuirks
-              /\ lock' = IF "NoFlock" \in FQuirks THEN lock ELSE p
+              /\ \/ lock = "free" \/ NoLock(p)
+              /\ lock' = IF NoLock(p) THEN lock ELSE p
               /\ pc' = [pc EXCEPT ![p] = "hdr"]
-              /\ UNCHANGED <<disk, cache, dirty, val, sess, seen, commits, hdrOk>>
+              /\ UNCHANGED <<disk, cache, dirty, val, sess, seen, commits, hdrOk, aux>>
 
 \* the header lives on page 0; reading it caches page 0.  A failing read must close the descriptor.
-ReadHeader(p) == /\ pc[p] = "hdr"
+ReadHeader(p) == /\ pc[p] = "hdr" /\ mode[p] = "open"
                  /\ IF hdrOk
                     THEN /\ cache' = [cache EXCEPT ![p][0] = disk[0]]
                          /\ pc' = [pc EXCEPT ![p] = "open"] /\ lock' = lock
@@ -65,57 +92,70 @@ ReadHeader(p) == /\ pc[p] = "hdr"
                          /\ IF "D6" \in FQuirks
                             THEN pc' = [pc EXCEPT ![p] = "leaked"] /\ lock' = lock
                             ELSE pc' = [pc EXCEPT ![p] = "idle"] /\ lock' = IF lock = p THEN "free" ELSE lock
-                 /\ UNCHANGED <<disk, dirty, val, sess, seen, commits, hdrOk>>
+                 /\ UNCHANGED <<disk, dirty, val, sess, seen, commits, hdrOk, aux>>
+
+\* Create after the lock: Truncate to the full length (zero pages), header written into the page cache (page 0 dirty)
+InitFile(p) == /\ pc[p] = "hdr" /\ mode[p] = "create"
+               /\ cache' = [cache EXCEPT ![p] = [pg \in Pages |-> 0]]
+               /\ dirty' = [dirty EXCEPT ![p] = {0}]
+               /\ pc' = [pc EXCEPT ![p] = "open"]
+               /\ UNCHANGED <<disk, lock, val, sess, seen, commits, hdrOk, aux>>
 
 \* (quirk D6 only) the garbage collector finalizes the leaked descriptor some time later
 Finalize(p) == /\ pc[p] = "leaked"
                /\ pc' = [pc EXCEPT ![p] = "idle"]
                /\ lock' = IF lock = p THEN "free" ELSE lock
-               /\ UNCHANGED <<disk, cache, dirty, val, sess, seen, commits, hdrOk>>
+               /\ UNCHANGED <<disk, cache, dirty, val, sess, seen, commits, hdrOk, aux>>
 
-\* somebody repairs / damages the header while nobody holds the file
-FlipHeader == /\ lock = "free" /\ \A p \in Procs : pc[p] \in {"idle", "locking"}
+\* somebody damages / repairs the file while nobody holds it (a file left empty by its creator is repaired likewise)
+FlipHeader == /\ lock = "free" /\ exists /\ \A p \in Procs : pc[p] \in {"idle", "locking"}
+              /\ \A p \in Procs : ~(mode[p] = "create" /\ pc[p] = "locking")   \* not in the middle of a creation
               /\ hdrOk' = ~hdrOk
-              /\ UNCHANGED <<disk, lock, pc, cache, dirty, val, sess, seen, commits>>
+              /\ IF hdrOk THEN dmg' \in Damages ELSE dmg' = "none"
+              /\ UNCHANGED <<disk, lock, pc, cache, dirty, val, sess, seen, commits, exists, mode>>
 
 ReadPage(p, pg) == /\ pc[p] = "open"
                    /\ cache[p][pg] = Unread
                    /\ cache' = [cache EXCEPT ![p][pg] = disk[pg]]
-                   /\ UNCHANGED <<disk, lock, pc, dirty, val, sess, seen, commits, hdrOk>>
+                   /\ UNCHANGED <<disk, lock, pc, dirty, val, sess, seen, commits, hdrOk, aux>>
 
 \* a fetch thread of a reader observes a page (which must be cached: ReadPage is the lazy fill)
 Observe(p, t, pg) == /\ p \in Readers /\ pc[p] = "open"
                      /\ cache[p][pg] # Unread
                      /\ seen' = [seen EXCEPT ![p][t] = @ \cup {cache[p][pg]}]
-                     /\ UNCHANGED <<disk, lock, pc, cache, dirty, val, sess, commits, hdrOk>>
+                     /\ UNCHANGED <<disk, lock, pc, cache, dirty, val, sess, commits, hdrOk, aux>>
 
 \* writer: read the generation on page 0 (cached by the header read), then stamp every page
 WLoad(p) == /\ p \in Writers /\ pc[p] = "open" /\ val[p] = Unread
             /\ val' = [val EXCEPT ![p] = cache[p][0] + 1]
-            /\ UNCHANGED <<disk, lock, pc, cache, dirty, sess, seen, commits, hdrOk>>
+            /\ UNCHANGED <<disk, lock, pc, cache, dirty, sess, seen, commits, hdrOk, aux>>
 
 WStamp(p, pg) == /\ p \in Writers /\ pc[p] = "open" /\ val[p] # Unread
                  /\ cache[p][pg] # Unread      \* WriteAt pre-reads the page
                  /\ cache[p][pg] # val[p]
                  /\ cache' = [cache EXCEPT ![p][pg] = val[p]]
                  /\ dirty' = [dirty EXCEPT ![p] = @ \cup {pg}]
-                 /\ UNCHANGED <<disk, lock, pc, val, sess, seen, commits, hdrOk>>
+                 /\ UNCHANGED <<disk, lock, pc, val, sess, seen, commits, hdrOk, aux>>
 
 SyncStart(p) == /\ p \in Writers /\ pc[p] = "open" /\ val[p] # Unread
                 /\ \A pg \in Pages : cache[p][pg] = val[p]
                 /\ pc' = [pc EXCEPT ![p] = "syncing"]
-                /\ UNCHANGED <<disk, lock, cache, dirty, val, sess, seen, commits, hdrOk>>
+                /\ UNCHANGED <<disk, lock, cache, dirty, val, sess, seen, commits, hdrOk, aux>>
 
 FlushPage(p, pg) == /\ pc[p] = "syncing" /\ pg \in dirty[p]
                     /\ \A q \in dirty[p] : pg <= q
                     /\ disk' = [disk EXCEPT ![pg] = cache[p][pg]]
                     /\ dirty' = [dirty EXCEPT ![p] = @ \ {pg}]
-                    /\ UNCHANGED <<lock, pc, cache, val, sess, seen, commits, hdrOk>>
+                    \* the creator's first flush of page 0 is what makes the file openable
+                    /\ IF pg = 0 /\ mode[p] = "create" /\ dmg = "empty"
+                       THEN hdrOk' = TRUE /\ dmg' = "none"
+                       ELSE UNCHANGED <<hdrOk, dmg>>
+                    /\ UNCHANGED <<lock, pc, cache, val, sess, seen, commits, exists, mode>>
 
 SyncDone(p) == /\ pc[p] = "syncing" /\ dirty[p] = {}
                /\ pc' = [pc EXCEPT ![p] = "synced"]
                /\ commits' = commits + 1
-               /\ UNCHANGED <<disk, lock, cache, dirty, val, sess, seen, hdrOk>>
+               /\ UNCHANGED <<disk, lock, cache, dirty, val, sess, seen, hdrOk, aux>>
 
 Close(p) == /\ pc[p] \in {"open", "synced"}
             /\ (p \in Readers => \A t \in Threads : seen[p][t] # {})
@@ -127,7 +167,7 @@ Close(p) == /\ pc[p] \in {"open", "synced"}
             /\ IF "CloseFlushes" \in FQuirks
                THEN disk' = [pg \in Pages |-> IF pg \in dirty[p] THEN cache[p][pg] ELSE disk[pg]]
                ELSE disk' = disk
-            /\ UNCHANGED <<sess, seen, commits, hdrOk>>
+            /\ UNCHANGED <<sess, seen, commits, hdrOk, aux>>
 
 \* a process dies (or drops its handle) anywhere while it has a descriptor, except mid-Sync
 Crash(p) == /\ pc[p] \in {"locking", "hdr", "open", "synced"}
@@ -137,10 +177,10 @@ Crash(p) == /\ pc[p] \in {"locking", "hdr", "open", "synced"}
             /\ dirty' = [dirty EXCEPT ![p] = {}]
             /\ val' = [val EXCEPT ![p] = Unread]
             /\ seen' = [seen EXCEPT ![p] = [t \in Threads |-> {}]]
-            /\ UNCHANGED <<disk, sess, commits, hdrOk>>
+            /\ UNCHANGED <<disk, sess, commits, hdrOk, aux>>
 
 Next == \/ \E p \in Procs :
-             \/ OpenFd(p) \/ Acquire(p) \/ ReadHeader(p) \/ Finalize(p)
+             \/ OpenFd(p) \/ CreateFd(p) \/ Acquire(p) \/ ReadHeader(p) \/ InitFile(p) \/ Finalize(p)
              \/ \E pg \in Pages : ReadPage(p, pg) \/ WStamp(p, pg) \/ FlushPage(p, pg)
              \/ \E pg \in Pages, t \in Threads : Observe(p, t, pg)
              \/ WLoad(p) \/ SyncStart(p) \/ SyncDone(p) \/ Close(p) \/ Crash(p)
@@ -148,7 +188,7 @@ Next == \/ \E p \in Procs :
 
 Spec == Init /\ [][Next]_vars
 \* every process keeps taking its own (non-crash) steps; the flock is granted when free
-ProcStep(p) == \/ Acquire(p) \/ ReadHeader(p) \/ Finalize(p) \/ WLoad(p) \/ SyncStart(p) \/ SyncDone(p) \/ Close(p)
+ProcStep(p) == \/ Acquire(p) \/ ReadHeader(p) \/ InitFile(p) \/ Finalize(p) \/ WLoad(p) \/ SyncStart(p) \/ SyncDone(p) \/ Close(p)
                \/ \E pg \in Pages : ReadPage(p, pg) \/ WStamp(p, pg) \/ FlushPage(p, pg)
                \/ \E pg \in Pages, t \in Threads : Observe(p, t, pg) /\ seen[p][t] = {}
 FairSpec == Spec /\ \A p \in Procs : WF_vars(ProcStep(p))
